@@ -95,6 +95,15 @@ inline void draw_source(vf::Draw &d, int arg, size_t n, std::vector<T> &a, std::
     std::vector<T> v(m);
     vf::fill_ints(d, v.data(), m, 9); for (size_t i = 0; i < n; ++i) a[i] = v[i % m];
     if (arg == 1) { vf::fill_ints(d, v.data(), m, 9); for (size_t i = 0; i < n; ++i) b[i] = v[i % m]; }
+    // floating types: negative zeros among the data ("bit for bit": a route that adds each element to a zeroed output, or
+    // multiplies by one, returns +0.0 for -0.0). Elements 0 and 1 of the draw become -0.0 (both operands for X = A+B: -0 + -0 = -0)
+    if constexpr (!std::is_integral<T>::value) {
+      if (d.boolean()) {
+        using RT = typename vf::real_of<T>::type;
+        auto nz = [](T &x) { if (x == T(0) || x == T(1)) { if constexpr (vf::is_cplx<T>::value) x = T(-RT(0), -RT(0)); else x = -T(0); } };
+        for (size_t i = 0; i < n; ++i) { nz(a[i]); if (arg == 1) { if (a[i] == T(0)) b[i] = a[i]; } }
+      }
+    }
   }
   for (size_t i = 0; i < n; ++i) S[i] = arg == 0 ? a[i] : arg == 1 ? T(a[i] + b[i]) : T(T(2) * a[i]);
 }
